@@ -706,7 +706,7 @@ pub fn generate(seed: u64, tier: Tier) -> Case {
                 let mut v: Vec<ApiOp> = vec![];
                 for _ in 0..rng.range(0, 4) {
                     let i = rng.below(n.max(1));
-                    v.push(match rng.below(6) {
+                    v.push(match rng.below(7) {
                         0 => ApiOp::AddFile(i),
                         1 => ApiOp::AddStr(i),
                         2 => ApiOp::AddStrAt(i, String::new()),
@@ -716,6 +716,26 @@ pub fn generate(seed: u64, tier: Tier) -> Case {
                                 .to_string(),
                         ),
                         4 => ApiOp::AddFileOutside(i),
+                        5 => {
+                            // A hand-made item: next to a real module, in a module that does not
+                            // exist, at the root, colliding with a declared name or not.
+                            let module = files
+                                .get(i)
+                                .map(|(p, _)| p.trim_end_matches(".pyxis").replace('/', "::"))
+                                .unwrap_or_default();
+                            let name = (*rng.pick(&["T0", "T1", "E2", "Injected", "u32", "T0Vftable"])).to_string();
+                            let path = match rng.below(4) {
+                                0 => name,
+                                1 => format!("{module}::{name}"),
+                                2 => format!("no::such::module::{name}"),
+                                _ => String::new(),
+                            };
+                            ApiOp::AddItem {
+                                path,
+                                size: *rng.pick(&[0usize, 1, 4, 12, usize::MAX, usize::MAX / 2 + 1]),
+                                alignment: *rng.pick(&[0usize, 1, 3, 4, 8, usize::MAX]),
+                            }
+                        }
                         _ => ApiOp::AddStr(i), // twice in a row with the next draw likely
                     });
                 }
